@@ -5,6 +5,8 @@ pub mod h_tree;
 pub mod h_pack;
 pub mod h_melda;
 pub mod h_c08;
+pub mod h_c02;
+pub mod h_c12;
 pub mod h_hist;
 pub mod h_c03;
 pub mod h_c04;
@@ -21,6 +23,9 @@ pub fn dispatch(name: &str) -> bool {
         "h_tree::tree_rule" => h_tree::tree_rule(),
         "h_pack::pack_roundtrip" => h_pack::pack_roundtrip(),
         "h_melda::smoke" => h_melda::smoke(),
+        "h_c02::delivery" => h_c02::delivery(),
+        "h_c12::merged_arrays" => h_c12::merged_arrays(),
+        "h_c12::maintenance" => h_c12::maintenance(),
         "h_hist::commit_graph" => h_hist::commit_graph(),
         "h_hist::time_travel" => h_hist::time_travel(),
         "h_c03::commit_reopen" => h_c03::commit_reopen(),
